@@ -121,6 +121,9 @@ def run(ctx: Context) -> None:
     ctx.require_floor("typing obligations", n, 7)
     ctx.rule("C08b", "every update of the mixed-Fock density matrix has a Hermiticity-preserving form: K rho K^dagger with the same K on both sides (matrix product or einsum), an elementwise factor exp(i (g(ket) - g(bra))), or the explicit mirror fill value.conj().T at the swapped index; the attenuator's weights are symmetric under ket <-> bra")
     clause_b(ctx, idx)
+    ctx.rule("C08c", "the Gaussian channel updates the covariance matrix by a congruence plus noise: the factor on the right is the transpose of the "
+                     "factor on the left (X sigma X^T + Y), written as one expression or as a row update followed by a column update")
+    clause_c(ctx, idx)
 
 
 # ================================================================================================ (b)
@@ -399,3 +402,54 @@ def clause_b(ctx: Context, idx) -> None:
     ok = sp.simplify(w1 - sp.conjugate(w2)) == 0
     site(att, upd[0], "attenuator-weight-hermitian", ok, f"the weight {w1} of rho[n, m] is not the conjugate of the weight of rho[m, n]")
     ctx.require_floor("density-matrix update sites classified", n_sites, 8)
+
+
+def clause_c(ctx: Context, idx) -> None:
+    gs = idx.module("piquasso._simulators.gaussian.simulation_steps")
+    fn = gs.functions.get("deterministic_gaussian_channel")
+    if fn is None:
+        raise AnalysisError("anchor vanished: gaussian deterministic_gaussian_channel")
+    n = 0
+
+    def is_transpose_of(right: ast.AST, left: ast.AST) -> bool:
+        r, l_ = norm(right).replace(" ", ""), norm(left).replace(" ", "")
+        return r in (f"{l_}.T", f"{l_}.transpose()", f"np.transpose({l_})", f"{l_}.T.copy()")
+
+    # one-expression form:  L @ sigma @ R (+ noise)
+    for a in ast.walk(fn.node):
+        if isinstance(a, ast.Assign) and len(a.targets) == 1 and isinstance(a.targets[0], ast.Attribute) and "covariance" in a.targets[0].attr:
+            v = a.value
+            cand = [b for b in ast.walk(v) if isinstance(b, ast.BinOp) and isinstance(b.op, ast.MatMult) and isinstance(b.left, ast.BinOp)
+                    and isinstance(b.left.op, ast.MatMult)]
+            for b in cand:
+                L, R = b.left.left, b.right
+                n += 1
+                ok = is_transpose_of(R, L)
+                key = f"{fn.qualname}|congruence {norm(b)[:50]}"
+                ctx.obligation("C08c", key, ok, f"{ctx.relpath(fn.file)}:{a.lineno}")
+                if not ok:
+                    ctx.violation("C08c", key, fn.file, a.lineno,
+                                  f"`{norm(b)[:80]}`: the right factor `{norm(R)}` is not the transpose of the left factor `{norm(L)}`; for a channel "
+                                  f"matrix that is not symmetric the covariance matrix stops being symmetric", norm(b)[:100])
+    # row update / column update form:  S[sel, :] = K @ S[sel, :]   and   S[:, sel] = S[:, sel] @ K'
+    rows, cols = [], []
+    for a in ast.walk(fn.node):
+        if isinstance(a, ast.Assign) and len(a.targets) == 1 and isinstance(a.targets[0], ast.Subscript) and isinstance(a.value, ast.BinOp) \
+                and isinstance(a.value.op, ast.MatMult):
+            tgt = norm(a.targets[0])
+            if norm(a.value.right) == tgt and isinstance(a.targets[0].slice, ast.Tuple):
+                rows.append((a, a.value.left))
+            elif norm(a.value.left) == tgt and isinstance(a.targets[0].slice, ast.Tuple):
+                cols.append((a, a.value.right))
+    for (ra, K), (ca, K2) in zip(rows, cols):
+        n += 1
+        ok = is_transpose_of(K2, K)
+        key = f"{fn.qualname}|row update by {norm(K)[:20]} / column update by {norm(K2)[:20]}"
+        ctx.obligation("C08c", key, ok, f"{ctx.relpath(fn.file)}:{ca.lineno}")
+        if not ok:
+            ctx.violation("C08c", key, fn.file, ca.lineno,
+                          f"the rows are multiplied by `{norm(K)}` from the left and the columns by `{norm(K2)}` from the right, which is not its "
+                          f"transpose: for a channel matrix that is not symmetric the covariance matrix stops being symmetric", norm(ca)[:100])
+    if len(rows) != len(cols):
+        ctx.error(f"C08c: {fn.qualname} has {len(rows)} row update(s) and {len(cols)} column update(s) of the covariance matrix (undecided)")
+    ctx.require_floor("C08c covariance updates of the Gaussian channel", n, 1)
